@@ -76,10 +76,19 @@ func judgeC06(sc *BatchSc, x *batchExec, br batchRun, fail string) Verdict {
 			}
 			return bad("C06:item-not-settled", "item %d was never processed before post (continue mode)", i)
 		}
+		// "Settled" is decided by the item's completed callback chain: its last-started callback
+		// (an exec attempt or the fallback) must have ended before post. An earlier attempt that is
+		// still running - abandoned by an implementation that does not wait for a callback ignoring
+		// a cancellation - does not make the item unsettled when the fallback has already decided it.
 		unsettled := false
-		for _, e := range per[i] {
-			if !e.Ended || e.End > postStart {
-				unsettled = true
+		if !strictSettle {
+			last := per[i][len(per[i])-1]
+			unsettled = !last.Ended || last.End > postStart
+		} else {
+			for _, e := range per[i] {
+				if !e.Ended || e.End > postStart {
+					unsettled = true
+				}
 			}
 		}
 		if unsettled {
